@@ -364,7 +364,7 @@ def run_check(modname: str, tier: str, seed: int, replay: Optional[str] = None) 
     build_ok, build_log = lake_build(prop.lean_targets)
     if not build_ok:
         log("proof build FAILED\n" + build_log[-2500:])
-    driver_mod = "Drivers." + {"heap": "Heap"}.get(prop.driver.split("_")[1], prop.driver.split("_")[1].capitalize())
+    driver_mod = "Drivers." + {"heap": "Heap", "pview": "PView"}.get(prop.driver.split("_")[1], prop.driver.split("_")[1].capitalize())
     audit_roots = [t for t in prop.lean_targets if t.startswith("OFCore.")] + [driver_mod]
     syn = syntactic_audit(audit_roots)
     ax, ax_log = axiom_audit(pid) if build_ok else ({t: None for t in theorems_of(pid)}, "")
